@@ -2,7 +2,7 @@
 From Coq Require Import NArith ZArith List Bool String.
 From ZV.Codec Require Import Bytes XXH64 Fse Huf Block Frame.
 From ZV.Gen Require Import Gen_Tables Gen_C03.
-From ZV.Safety Require Import DDictHashSet DDictHashSetProofs RTotal ROutput NoProgress NoProgressProofs Witnesses Consts.
+From ZV.Safety Require Import DDictHashSet DDictHashSetProofs RTotal ROutput RBound RCopy NoProgress NoProgressProofs Witnesses Consts LitBuffer LitBufferProofs RingBuffer RingBufferProofs.
 Import ListNotations.
 Local Open Scope N_scope.
 
@@ -57,6 +57,104 @@ Theorem C03_checked_sequence_stays_in_history : forall base strict window blockM
 Proof. exact exec_seq_props. Qed.
 Print Assumptions C03_checked_sequence_stays_in_history.
 
+(* ---- every match copy reads inside the history and is the LZ77 copy ---- *)
+Theorem C03_match_copy_reads_inside_history : forall f x off ml,
+  xexact x -> 1 <= off -> off <= x_avail x -> ml / off < N.of_nat f ->
+  xexact (copy_match f x off ml) /\ x_avail (copy_match f x off ml) = x_avail x + ml /\
+  lz_copy (N.to_nat off) (x_hist x) (x_hist (copy_match f x off ml)) (N.to_nat ml).
+Proof. exact copy_match_lz. Qed.
+Print Assumptions C03_match_copy_reads_inside_history.
+
+Theorem C03_accepted_sequence_is_lz_copy : forall strict window blockMax x lits ll ml off x' lits',
+  xexact x -> exec_seq strict window blockMax x lits ll ml off = Ok (x', lits') ->
+  xexact x' /\ x_avail x' = x_avail x + ll + ml /\
+  exists la, lits = la ++ lits' /\ N.of_nat (List.length la) = ll /\
+             1 <= off /\ off <= x_avail x + ll /\
+             lz_copy (N.to_nat off) (rev la ++ x_hist x) (x_hist x') (N.to_nat ml).
+Proof. exact exec_seq_lz. Qed.
+Print Assumptions C03_accepted_sequence_is_lz_copy.
+
+(* the hypothesis [xexact] holds of every state R reaches: initial state of a frame, sequences loop, compressed block *)
+Theorem C03_decoder_states_exact :
+  (forall dcontent : bytes, xexact {| x_hist := rev' dcontent; x_marks := []; x_avail := lenN dcontent; x_pos := 0; x_blk := 0 |}) /\
+  (forall n strict window blockMax tll tof tml stll stof stml s rep x lits acc xs lits' rep' sqs,
+     xexact x -> seq_loop n strict window blockMax tll tof tml stll stof stml s rep x lits acc = Ok (xs, lits', rep', sqs) -> xexact xs) /\
+  (forall strict window blockMax e x src e' x' bt,
+     xexact x -> decode_cblock strict window blockMax e x src = Ok (e', x', bt) -> xexact x').
+Proof. exact decoder_states_exact. Qed.
+Print Assumptions C03_decoder_states_exact.
+
+(* ---- literal buffer placement (ZSTD_decodeLiteralsBlock / ZSTD_allocateLiteralsBuffer) ---- *)
+Theorem C03_literal_buffer_placement_safe : forall kind blockSizeMax dstCapacity srcSize lhSize litSize litCSize streaming lb consumed,
+  (0 <= litSize -> 0 <= lhSize -> 0 <= dstCapacity -> 0 <= blockSizeMax ->
+   place kind blockSizeMax dstCapacity srcSize lhSize litSize litCSize streaming = LOk lb consumed ->
+   placement_safe blockSizeMax dstCapacity srcSize litSize lb)%Z.
+Proof. exact place_safe. Qed.
+Print Assumptions C03_literal_buffer_placement_safe.
+
+Theorem C03_huffman_literals_target_inside : forall blockSizeMax dstCapacity litSize streaming,
+  (0 <= litSize -> litSize <= Z.min blockSizeMax dstCapacity ->
+   let lb := allocate blockSizeMax dstCapacity litSize streaming (Z.min blockSizeMax dstCapacity) false in
+   0 <= lb_start lb /\ lb_end lb = lb_start lb + litSize /\
+   match lb_region lb with RDst => lb_end lb <= dstCapacity | RExtra => lb_end lb <= EXTRA | RSrc => False end)%Z.
+Proof. exact huf_target_inside. Qed.
+Print Assumptions C03_huffman_literals_target_inside.
+
+Theorem C03_split_shift_inside : forall lb litSize,
+  (lb_loc lb = Split -> EXTRA < litSize -> lb_end lb = lb_start lb + litSize ->
+   let lb' := shift_split lb in
+   lb_start lb <= lb_start lb' /\ lb_end lb' = lb_start lb' + (litSize - EXTRA) /\ lb_end lb' <= lb_end lb /\
+   lb_start lb <= lb_end lb - EXTRA)%Z.
+Proof. exact split_shift_inside. Qed.
+Print Assumptions C03_split_shift_inside.
+
+Theorem C03_split_output_behind_literals : forall pre post ews litSize,
+  (Forall (fun s => 0 <= fst s /\ 0 <= snd s) (pre ++ post) ->
+   EXTRA < litSize -> seq_lit (pre ++ post) <= litSize ->
+   seq_out (pre ++ post) + (litSize - seq_lit (pre ++ post)) <= ews ->
+   let litStart := ews - litSize + EXTRA - WILDCOPY in
+   let op := seq_out pre in
+   let litPtr := litStart + seq_lit pre in
+   op + WILDCOPY + (EXTRA - 2 * WILDCOPY) <= litPtr /\
+   match post with
+   | [] => True
+   | (ll, ml) :: _ => op + ll + ml + WILDCOPY <= litPtr + ll
+   end)%Z.
+Proof. exact split_output_behind_literals. Qed.
+Print Assumptions C03_split_output_behind_literals.
+
+Theorem C03_literal_ews_check_necessary :
+  place_gen false KRle 131072 1000 4 3 131072 0 false =
+    LOk {| lb_loc := Split; lb_region := RDst; lb_start := -64568; lb_end := 968 |} 4%Z /\
+  place KRle 131072 1000 4 3 131072 0 false = LErr EDstTooSmall.
+Proof. exact ews_check_necessary. Qed.
+Print Assumptions C03_literal_ews_check_necessary.
+
+Theorem C03_literal_blockmax_check_subsumed : forall blockSizeMax dstCapacity litSize,
+  (blockSizeMax < litSize -> Z.min blockSizeMax dstCapacity < litSize)%Z.
+Proof. exact lit_blockmax_check_subsumed. Qed.
+Print Assumptions C03_literal_blockmax_check_subsumed.
+
+(* ---- output ring buffer of the streaming decoder (ZSTD_decodingBufferSize_internal + restart rule of zdss_flush) ---- *)
+Theorem C03_ring_buffer_safe : forall W fcs B rs s r s',
+  (params_ok W fcs B -> Forall (fun r => 0 <= r) rs -> 0 <= r ->
+   ring_run (buf_size W fcs B) fcs B ring0 rs = Some s ->
+   ring_step (buf_size W fcs B) fcs B s r = Some s' ->
+   let size := buf_size W fcs B in
+   (0 <= r_start s /\ r_start s + r <= size /\ r <= B /\ (size < fcs -> r_start s + B <= size)) /\
+   (forall d, 1 <= d -> d <= Z.min W (r_total s) ->
+      d <= r_start s \/
+      exists e, r_old s = Some e /\ e <= size /\ r_start s + Z.min B (size - r_start s) <= e - (d - r_start s) /\ 0 < d - r_start s))%Z.
+Proof. exact ring_safe. Qed.
+Print Assumptions C03_ring_buffer_safe.
+
+Theorem C03_ring_buffer_needs_two_blocks :
+  (let W := 1024 in let B := 1024 in let small := W + B + 2 * RWILDCOPY in
+   exists s, ring_run small (2^64 - 1) B ring0 [1000; 1000] = Some s /\ r_start s = 0 /\
+             r_old s = Some 2000 /\ ~ (r_start s + B <= 2000 - (W - r_start s)))%Z.
+Proof. exact ring_needs_two_blocks. Qed.
+Print Assumptions C03_ring_buffer_needs_two_blocks.
+
 (* ---- output bound ---- *)
 Theorem C03_R_output_bound : forall cfg d src out t rest,
   decode_frame cfg d src = Ok (out, t, rest) ->
@@ -68,6 +166,19 @@ Theorem C03_R_output_bound : forall cfg d src out t rest,
   lenN out <= 131072 * lenN (ft_blocks t).
 Proof. exact R_output_bound. Qed.
 Print Assumptions C03_R_output_bound.
+
+(* ---- the output is bounded by the INPUT length alone (no declared size needed): 3 * |out| <= 128 KiB * |in| ---- *)
+Theorem C03_frame_expansion_bound : forall cfg d src out t rest,
+  decode_frame cfg d src = Ok (out, t, rest) ->
+  (3 * List.length (ft_blocks t) + List.length rest <= List.length src)%nat /\
+  3 * lenN out + 131072 * lenN rest <= 131072 * lenN src.
+Proof. exact decode_frame_expansion_bound. Qed.
+Print Assumptions C03_frame_expansion_bound.
+
+Theorem C03_R_expansion_bound : forall cfg d src out items,
+  R cfg d src = Ok (out, items) -> 3 * lenN out <= 131072 * lenN src.
+Proof. exact R_expansion_bound. Qed.
+Print Assumptions C03_R_expansion_bound.
 
 (* ---- necessity witnesses: every check has a byte string that stops R at that check ---- *)
 Theorem C03_witnesses_rejected_at_site :
